@@ -104,10 +104,7 @@ func Bubble(t *testing.T, realDeadline time.Duration, f func(t *testing.T) strin
 		synctest.Test(t, func(t *testing.T) { res = f(t) })
 		ch <- res
 	}()
-	select {
-	case r := <-ch:
-		return r
-	case <-time.After(realDeadline):
+	hang := func() string {
 		if p := Partial.Load(); p != nil {
 			s := (*p)()
 			if f := os.Getenv("VERIF_HANGLOG"); f != "" {
@@ -120,4 +117,24 @@ func Bubble(t *testing.T, realDeadline time.Duration, f func(t *testing.T) strin
 		}
 		return "HANG"
 	}
+	deadline := time.After(realDeadline)
+	tick := time.NewTicker(2 * time.Second)
+	defer tick.Stop()
+	for {
+		select {
+		case r := <-ch:
+			return r
+		case <-tick.C:
+			if g := GiveUp.Load(); g != nil && (*g)() {
+				return hang()
+			}
+		case <-deadline:
+			return hang()
+		}
+	}
 }
+
+// GiveUp, when set by a scenario, is polled from outside the bubble every two seconds of real time; when it
+// reports true the op ends as HANG at once instead of waiting for the real deadline (a scenario that can tell
+// that it will never become quiescent, e.g. a goroutine spinning while virtual time stands still).
+var GiveUp atomic.Pointer[func() bool]
